@@ -4,6 +4,7 @@ import (
 	"bytes"
 	"encoding/binary"
 	"fmt"
+	"hash/crc32"
 	"math/rand"
 	"os"
 	"path/filepath"
@@ -400,6 +401,25 @@ func genC12(r *rand.Rand, tier string) []Case {
 			// bit flips, zero, 0xff and marker bytes only
 			c.Recs = mkRecs(6, 200)
 		}
+		cases = append(cases, c)
+	}
+	// payloads that begin with the checksum an altered header would need: if the one-byte length field gets its
+	// continuation bit set it swallows the following zero byte (the compressed length), every later field moves by one and
+	// the checksum is read from the start of the payload - a reader that tolerates the non-minimal length accepts it
+	for i := 0; i < 3; i++ {
+		L := 12 + r.Intn(100)
+		h := []byte{0x91, 0x8d, 0x4c, 0x00, byte(L), 0x00}
+		crcOf := func(b []byte) []byte {
+			var buf [10]byte
+			n := binary.PutUvarint(buf[:], uint64(crc32.Checksum(b, crc32.MakeTable(crc32.Castagnoli))))
+			return buf[:n]
+		}
+		altered := append([]byte{0x91, 0x8d, 0x4c, 0x00, byte(L) | 0x80, 0x00}, crcOf(h)...)
+		payload := append([]byte{}, crcOf(altered)...)
+		for len(payload) < L {
+			payload = append(payload, byte('a'+len(payload)%26))
+		}
+		c := &c12Case{Mode: "hdr", Comp: 0, RBuf: bufs[r.Intn(len(bufs))], Recs: []c12Rec{{Rec: payload[:L]}, {Rec: bytes.Repeat([]byte("following record "), 8)}}}
 		cases = append(cases, c)
 	}
 	// restricted replacement sets are computed per position in Exec when Vals is empty: for the
